@@ -201,6 +201,17 @@ func init() {
 					}
 				}
 			}
+			// data that starts with a file signature, chains with dataType-sensitive stages, a first Write
+			// of 1..5 bytes (signature detection must not depend on what the first call carries)
+			for _, cd := range [][2]string{{"TEXT", "ANS0"}, {"TEXT+UTF+PACK+MM+LZX", "HUFFMAN"}, {"EXE+RLT+TEXT+UTF+DNA", "FPAQ"}, {"LZ", "NONE"}} {
+				for _, sh := range []string{"bmtext", "bmp", "wav16s", "elf", "zipmagic-text"} {
+					for _, first := range []int{1, 2, 3, 4, 5, 8, 1000} {
+						for _, j := range []uint{1, 3} {
+							emit(detCase{P: Params{cd[0], cd[1], 16 * B, j, 32, -1, false, false}, Shape: sh, Len: 40*B + 77, Parts: []int{first}, Reps: 1})
+						}
+					}
+				}
+			}
 			// (iii) compositions of the input into Write calls
 			alpha := []int{1, 15, 16, 17, B - 1, B, B + 1, 2 * B, 3 * B}
 			total := 3*B + B/2
